@@ -170,7 +170,15 @@ def fixpoint_store_flagged(facts):
             consts = [(i, st) for (i, st) in sts if st["rv"]["k"] == "use" and "const" in st["rv"]["o"][0]]
             falses = [i for (i, st) in consts if st["rv"]["o"][0]["const"] in ("0", "false")]
             trues = [i for (i, st) in consts if st["rv"]["o"][0]["const"] in ("1", "true")]
-            if not falses or not trues:
+            # `flag |= <comparison>`: the flag is raised exactly when the comparison holds; (block, leaves of the comparison)
+            accs = []
+            for (i, st) in sts:
+                rv = st["rv"]
+                if rv["k"] == "bin" and rv["op"] == "BitOr" and any(op_local(o_) == l for o_ in rv["o"]):
+                    other = [o_ for o_ in rv["o"] if op_local(o_) != l]
+                    if other:
+                        accs.append((i, deep_leaves(b, b.expr(other[0], 10, named_leaf=True))))
+            if not falses or not (trues or accs):
                 continue
             succ = b.cfg()[0]
             loop = set()
@@ -180,10 +188,12 @@ def fixpoint_store_flagged(facts):
                     fwd |= reach(b, s)
                 if fb in fwd:
                     loop |= {x for x in fwd if fb in reach(b, x)}
-            tested = any(bl["term"]["k"] == "switch" and (op_local(bl["term"]["d"]) == l or ("local", l) in leaves(b.expr(bl["term"]["d"], 4)))
-                         for bl in b.blocks if not bl["cleanup"])
+            tested = any(bl["term"]["k"] == "switch" and (op_local(bl["term"]["d"]) == l or ("local", l) in leaves(b.expr(bl["term"]["d"], 10)) or
+                                                          ("local", l) in leaves(b.expr_at(bl["term"]["d"], bi_, None, 10)))
+                         for bi_, bl in enumerate(b.blocks) if not bl["cleanup"])
             trues = [t_ for t_ in trues if t_ in loop]
-            if not loop or not tested or not trues:
+            accs = [(i, lv) for (i, lv) in accs if i in loop]
+            if not loop or not tested or not (trues or accs):
                 continue
             # conditional edges inside the sweep that dominate a block
             def conds(blk):
@@ -207,6 +217,12 @@ def fixpoint_store_flagged(facts):
                 # a store under MORE conditions than the flag is still flagged; under FEWER (or different) conditions it can change unflagged
                 ok = any(sc <= c for sc in set_conds)
                 site = "%s:table-store#%d" % (b.lname(l), k)
+                if not ok and accs:
+                    # unconditional store next to `flag |= new != table[i]`: the comparison names the table that is stored into
+                    troots = {x for x in named_roots(b, {"copy": {"l": lhs["l"], "p": []}}) if x[0] in ("local", "arg")}
+                    for (ai, lv) in accs:
+                        if conds(ai) <= c and (troots & {x for x in lv if x[0] in ("local", "arg")}):
+                            ok = True
                 if ok:
                     r.ok(b.npath, site, "the store is dominated by the conditions of a `%s = true`" % b.lname(l))
                 else:
@@ -377,3 +393,53 @@ def join_flag_names_edge(facts):
         o.check(b, "join-exits", b.line, n >= 1, "%d exit(s)" % n, "the `join` result of the flag walk was not found in find_join")
     o.r.floor = 2
     return o.r
+
+
+# ------------------------------------------------------------------------------------------------ C17 (the reader never panics on its input)
+READER_FILES = ("src/graph_impl/serialization.rs", "src/graph_impl/stable_graph/serialization.rs", "src/serde_utils.rs")
+PANIC_FNS = ("core::panicking::panic", "core::panicking::panic_fmt", "core::panicking::assert_failed", "core::panicking::panic_display", "core::panicking::panic_explicit",
+             "core::panicking::unreachable_display", "core::result::unwrap_failed", "core::option::unwrap_failed", "core::option::expect_failed",
+             "core::panicking::panic_str", "std::rt::begin_panic", "core::panicking::panic_nounwind")
+
+
+def _is_reader(b):
+    nm = b.npath.split("::{closure")[0]
+    last = last_seg(nm)
+    if b.file in READER_FILES:
+        return last in ("from_deserialized", "deserialize", "visit_seq", "visit_map", "visit_newtype_struct") or last.startswith(("deser_", "invalid_"))
+    if b.file in ("src/graph_impl/mod.rs", "src/graph_impl/stable_graph/mod.rs"):
+        return last == "link_edges"
+    if b.file == "src/graphmap.rs":
+        return last == "deserialize"
+    return False
+
+
+def reader_never_panics(facts):
+    r = RuleResult("WIRE-NOPANIC", "the deserialising side (from_deserialized, Deserialize::deserialize, the sequence visitors, deser_* readers, link_edges) contains no explicit "
+                                   "panic site - assert!/debug_assert!/unwrap/expect/panic! - on a reachable path: everything it computes derives from untrusted input, so a "
+                                   "violated expectation has to be an Err (bounds- and overflow-checks of indexing/arithmetic are decided by WIRE-VALIDATE / TAG-W, not here)")
+    n = 0
+    for b in facts.bodies:
+        if b.kind not in ("Fn", "AssocFn", "Closure") or not _is_reader(b):
+            continue
+        n += 1
+        succ, _, rch = b.cfg()
+        bad = []
+        for i, t in b.calls():
+            if i not in rch:
+                continue
+            np_ = norm_path(t["f"]["path"])
+            if np_ in PANIC_FNS or np_.startswith("core::panicking::"):
+                bad.append((t["line"], last_seg(np_), t.get("mac", "")))
+            elif last_seg(np_) in ("unwrap", "expect", "unwrap_unchecked") and np_.startswith(("core::option::Option", "core::result::Result")):
+                bad.append((t["line"], last_seg(np_), ""))
+        if bad:
+            for (ln, what, mac) in bad:
+                r.bad(Violation("WIRE-NOPANIC", b.npath, "panic-site:%s" % what, b.file, ln,
+                                "%s (%s) is reachable in a function that processes deserialised input: malformed input (a hole position that the compact node "
+                                "list cannot reach, a length that disagrees) panics instead of returning an error" % (what, mac or "explicit call")))
+        else:
+            r.ok(b.npath, "no-panic-site", "no explicit panic call on a reachable path")
+    r.floor = 50
+    r.floor_what = "reader functions"
+    return r
